@@ -22,3 +22,11 @@ mod sans_notify;
 
 #[cfg(feature = "serde")]
 mod serde_formats;
+
+/// Verification-only access to the serde wire structs (enabled only under the Kani compiler).
+#[cfg(all(kani, feature = "serde"))]
+pub mod verif {
+	pub use crate::serde_formats::{
+		FsEventKind, ProcessDisposition, SerdeEvent, SerdeTag, SerdeTagParts, TagKind,
+	};
+}
